@@ -14,6 +14,7 @@ def run(rep):
     rep.rule("verify-exact", "Signature::verify == (sigma1 != identity) AND e(sigma1, X~ + <Y~,m>) e(sigma2, -g~) = 1, nothing weaker, nothing stronger")
     rep.rule("well-formed", "is_well_formed == (sigma1 != identity); the decode-time validator checks the same atom")
     rep.rule("producer-term", "value term of each signature producer equals its reference term (R_sign, R_rand, R_blind, R_bsign, R_unblind)")
+    rep.rule("producer-coverage", "every hand-written function returning or mutating a Signature / BlindedSignature is one of the analysed producers (decoders excepted: C15)")
     rep.rule("chain-complete", "verify(producer-chain output) normalises to TRUE (or to the stated side condition) under the extracted key-generation wiring")
     rep.rule("coordinate-coefficient", "each message coordinate m_i enters the verification polynomial with coefficient sigma1 (x) Y~_i: whole-array inner product, no coordinate skipped")
     pkr = public_key_roles(rep)
@@ -229,6 +230,67 @@ def producers_and_chains(rep, only=None):
                  site=need["BlindedSignature::new"].loc())
     bsr = S.call(need["BlindedSignature::new"], [kp, rng, vbm])
     chain("blind;blind-sign;unblind(same bf)", S.call(need["BlindedSignature::unblind"], [bsr, bfv]), side=("u",))
+    # re-randomising a signature while it is still blinded
+    brz = method(prog, BSIG, "randomize")
+    if brz is not None:
+        rep0.fn(brz)
+        cell2 = next(S.eng.ncell)
+        ret, st2, fr2 = eval_with_cell(S, brz, cell2, ("struct", BSIG, 0, (sym_sig,)), [None, rng])
+        after = st2.store.get(cell2)
+        q1, q2 = bsig_parts(S, after)
+        okq = False
+        rsq = [a for a in S.alg.poly(q1).atoms() if a[0] == "rand"]
+        if len(rsq) == 1:
+            okq = S.same(q1, ("mul", ("s1",), rsq[0])) and S.same(q2, ("mul", ("s2",), rsq[0]))
+        if okq:
+            rep.ok("producer-term", "BlindedSignature::randomize", sample="(r*sigma1', r*sigma2') with one fresh scalar r: the blinding is untouched")
+        else:
+            rep.fail("producer-term", "BlindedSignature::randomize", "re-randomising a blinded signature is not (r*sigma1, r*sigma2) for one fresh r: (%s, %s)" % (
+                S.show(S.canon(q1)), S.show(S.canon(q2))), site=brz.loc())
+        cell3 = next(S.eng.ncell)
+        ret, st3, fr3 = eval_with_cell(S, brz, cell3, bsr, [None, rng])
+        chain("blind;blind-sign;randomize(blinded);unblind(same bf)", S.call(need["BlindedSignature::unblind"], [st3.store.get(cell3), bfv]), side=("u", "r"))
+    # public wrappers
+    msign = method(prog, MSG, "sign")
+    if msign is not None:
+        rep0.fn(msign)
+        chain("Message::sign", S.call(msign, [("refv", msg), rng, ("refv", kp)]))
+    vbs = method(prog, VBM, "blind_sign")
+    if vbs is not None:
+        rep0.fn(vbs)
+        chain("blind;VerifiedBlindedMessage::blind_sign;unblind(same bf)",
+              S.call(need["BlindedSignature::unblind"], [S.call(vbs, [vbm, ("refv", kp), rng]), bfv]), side=("u",))
+    # ---- every hand-written function that yields or mutates a (blinded) signature is one of the analysed producers
+    covered = {"Signature::new", "Signature::randomize", "Signature::blind_and_randomize", "BlindedSignature::new",
+               "BlindedSignature::unblind", "BlindedSignature::randomize", "Message::sign", "VerifiedBlindedMessage::blind_sign"}
+    decoders = {"try_from", "from_bytes", "deserialize"}          # decode routes: validated by C15 / C16, not producers of valid signatures
+
+    def mentions(t):
+        if not isinstance(t, tuple):
+            return False
+        if t and t[0] == "adt" and t[1] in (SIG, BSIG):
+            return True
+        return any(mentions(x) for x in t if isinstance(x, tuple))
+    nprod = 0
+    for b in prog.bodies.values():
+        if b.kind == "Closure" or b.from_expansion or not b.id.startswith(ZC + "::"):
+            continue
+        mutself = b.argc >= 1 and b.locals[1][0] == "ref" and b.locals[1][1] is True and mentions(b.locals[1])
+        if not (mentions(b.locals[0]) or mutself):
+            continue
+        nm = b.desc.get("name")
+        st = b.desc.get("self_ty")
+        owner = st[1].split("::")[-1] if st is not None and st[0] == "adt" else "?"
+        key = "%s::%s" % (owner, nm)
+        if nm in decoders:
+            continue
+        nprod += 1
+        if key in covered:
+            rep.ok("producer-coverage", key, sample="analysed as a producer term and in a verifying chain", nontrivial=False)
+        else:
+            rep.fail("producer-coverage", key, "%s yields or rewrites a (blinded) signature but is not one of the analysed producers: its output is not shown to verify" % b.path, site=b.loc())
+    if only is None:
+        rep0.floor("signature producers", nprod, 8)
 
 
 def eval_with_cell(S, body, cell, value, args):
